@@ -222,6 +222,9 @@ func runServe(c *rig.Ctx, s ServeCase, record bool) bool {
 		return true // not a meaningful scenario
 	}
 	obs := runImplServe(s)
+	if obs.err != "" {
+		obs = runImplServe(s) // once more: a stalled machine is not a verdict
+	}
 	impl := map[string]interface{}{"status": obs.status, "panicked": obs.panicked, "free_during": obs.duringFree, "free_after": obs.afterFree}
 	if obs.err != "" {
 		return fail("diff", "c05.serve-rig", "the dispatcher rig could not run: "+obs.err, impl, nil)
